@@ -700,6 +700,9 @@ func handleBlockRewards(appCtx *context, block RequestBeginBlock, logger *log.Lo
 	}
 	totalRewards, err := rewardMaster.RewardCm.PullRewards(lastHeight, rewardPoolCoin.Amount)
 	if err != nil {
+		// no block reward can be calculated (e.g. the year's supply is exhausted before the
+		// year closes), but the reward withdrawals maturing at this height are still due
+		matureDelegationRewards(appCtx, &block, kvMap, logger)
 		return abciTypes.Event{}
 	}
 
